@@ -1128,7 +1128,7 @@ def ends_with_jump(text):
     return False
 
 
-NEUTRAL = {"P": ["F", "imp", 1], "M": ["F", "imp", 1]}
+NEUTRAL = {"P": ["F", "imp", 1], "M": ["F", "imp", 1]}       # "S" (sstruct after read) has no neutralisation
 
 
 def model_diag(case):
@@ -1182,7 +1182,7 @@ def replay(ctx, path):
 
 def run(ctx):
     quick = ctx.tier == "quick"
-    n_pairs = 30 if quick else 220
+    n_pairs = 30 if quick else 160
     # the order of write_to_file's steps is taken from the source on every run (Gen/Writer.v); Properties/C09.v
     # compares it with the order Model/Place.v assumes (C09_gen_writer_steps)
     try:
@@ -1278,6 +1278,11 @@ def run(ctx):
             m = parse_answer(ans)
             c["_diag"] = m.get("diag", "")
             bump(dist["model_diag"], c["_diag"] or "clean")
+            # the hypothesis of C09_safe_histories that is not proved for read: sstruct of the state after reading
+            if "S" in c["_diag"] and not any(b.get("obligation", "").startswith("sstruct") for b in ctx.broken_obligations):
+                ctx.broken_obligations.append({"obligation": "sstruct (read f) = true for every generated input "
+                                               "(start hypothesis of C09_safe_histories)",
+                                               "detail": {"text": c["text"]}})
             dist["intermediate_writes"] += sum(1 for x in c["ops"] if x[0] == "Wr")
             for e in real.get("intermediate_write_errors", []):
                 bump(dist["intermediate_write_errors"], e)
@@ -1390,6 +1395,9 @@ def run(ctx):
         "the cell block; the model reports per case whether it holds: model_diag) and the two documented refusals "
         "(imp_data_ok: ParticleTypeNotInCell; fill_ok: 'Fill can not be in the data block'); C09_aligned, "
         "C09_inside_data_block, C09_history_invariant, C09_read_wf have no side condition",
+        "C09_safe_histories (every kind of statement, only `del importance` restricted to plain cells) assumes sstruct of "
+        "the start state; that read establishes it is not proved: the model evaluates it on the state after reading for "
+        "every generated input (diagnosis letter S; any occurrence is reported as a broken obligation)",
         "values are opaque: math.isclose is modelled as equality (generated values are equal or far apart)",
         "a write does not change the state in the model (Importance._format_tree edits classifiers in place in "
         "MontePy): every case writes once",
